@@ -21,7 +21,7 @@ TEXT = {
  "C12": "bounded symbolic execution of otto's date code together with Go's time package from source, against the ES5 15.9.1 day/time formulas stated relationally",
  "C13": "bounded symbolic execution of Math built-ins over all doubles against IEEE/ES5 references, and of escape/URI coding on short symbolic strings",
  "C15": "bounded symbolic execution of toValue/export/To* conversions for every Go numeric kind at full width",
- "C16": "bounded symbolic execution of the numeric bridging matrix through a reflect shim with reflect's documented panic conditions as obligations",
+ "C16": "bounded symbolic execution of the numeric conversion Value.toReflectValue (used for writes to bridged slices, arrays and struct fields) for any double x every numeric target kind through a reflect shim: an error, or the delivered Go value equals the JavaScript number; reflective calls, structs, maps are outside the claim",
  "C17": "symbolic execution of the real cloner on a hand-built heap containing every reference kind, scalars symbolic; isomorphism, disjointness and independence under a symbolic mutation",
  "C18": "the interrupt poll of the real evaluator is made a symbolic choice: for fixed program families every poll index up to the bound is explored and the unwinding/rest-state assertions are decided on each path",
  "C19": "bounded symbolic execution of the line/column arithmetic of parser and file package on symbolic source bytes against an ES5 7.3 line-terminator oracle; trace capture with symbolic limits",
